@@ -54,9 +54,15 @@ Definition veval (p : params) (d : design) (clk rst : bool) (h : hidden) (s : rs
 Definition out_at (d : design) (rst : bool) (s : rstate) (n : string) : Z :=
   getv n (map (evalp (cycle_env d (bz rst) xv0 s)) (outputs d)) 0.
 
-(* load(): the 4-byte header is skipped, the WHOLE rest of the file (image and symbol tables), zero-padded to a multiple
-   of four bytes, is copied to memory from word 0 *)
-Definition loaded_words (file : list Z) : list Z := words_of_bytes (skipn 4 file).
+(* load(): the file must open and hold the 4-byte header (else "could not open file" / "binary has no header"); the header
+   word announces the program size in words, which must not exceed the architecture's memory (else "program is larger than
+   the memory": run() is never reached and main returns 1); then that many words -- the image, NOT the debug tables that may
+   follow it -- are read into memory from word 0 (a file that ends early leaves the remaining words as they were) *)
+Definition header (file : list Z) : Z :=
+  match file with b0 :: b1 :: b2 :: b3 :: _ => b0 + 256 * b1 + 65536 * b2 + 16777216 * b3 | _ => 0 end.
+Definition file_loads (file : list Z) : bool := (4 <=? Z.of_nat (List.length file)) && (header file <=? MEMW).
+Definition image_bytes (file : list Z) : list Z := firstn (Z.to_nat (4 * header file)) (skipn 4 file).
+Definition loaded_words (file : list Z) : list Z := words_of_bytes (image_bytes file).
 Definition power_on (i : init) (file : list Z) : tb :=
   {| t_s := {| r_pc := i_pc i; r_areg := i_areg i; r_breg := i_breg i; r_oreg := i_oreg i;
                r_mem := load_words (WMap.empty (fun a => i_bg i a mod 4294967296)) 0 (loaded_words file) |};
@@ -183,3 +189,26 @@ Definition region (n : Z) : Z -> bool := fun x => (0 <=? x) && (x <? n).
 (* well-behaved binary + input: along its whole ISA trace from the loaded words ws (everything else zero) *)
 Definition well_behaved (nwords : Z) (ws : list Z) (inp : inputs) : Prop :=
   forall n, wb_mon (region nwords) n (boot ws) inp = true.
+
+
+(* the same monitor WITHOUT the clause "a READ does not overwrite the word its own SVC is fetched from": the full quantifier of
+   C06/C13 (used only to state the full-strength properties next to the proved _partial ones) *)
+Definition step_safe0 (a a' : arch) (ev : event) : bool :=
+  (pc a' <? 800000) && (if fetch a / 16 =? 5 then areg a' <? 800000 else true) && forallb (Z.leb 0) (stores_of a).
+Fixpoint wb_mon0 (D : Z -> bool) (n : nat) (a : arch) (inp : inputs) : bool :=
+  match n with
+  | O => true
+  | S k =>
+      reads_defined D a &&
+      match Isa.step a inp with
+      | Undefined _ => false
+      | Ok (a', inp', ev) =>
+          step_safe0 a a' ev && match ev with Exit _ => true | _ => wb_mon0 (extend D a) k a' inp' end
+      end
+  end.
+Definition well_behaved0 (nwords : Z) (ws : list Z) (inp : inputs) : Prop :=
+  forall n, wb_mon0 (region nwords) n (boot ws) inp = true.
+
+(* hextb's main(): load(), then run(); None = load() threw (message on stderr, exit status 1, run() never started) *)
+Definition tb_main (p : params) (d : design) (n : nat) (max_cycles : Z) (i : init) (file : list Z) (inp : inputs) : option result :=
+  if file_loads file then Some (run p d n max_cycles (power_on i file) inp []) else None.
